@@ -368,6 +368,13 @@ func H_C04_history() {
 		{id: 9, hasS: true, s: "", hasF: true, f: 2.5},
 	}
 	idx := vMetaIndex(docs)
+	// the same queries are also asked BEFORE the history (an index may remember what it answered)
+	for _, f := range []Filter{Exists("s"), Exists("b"), Exists("i"), NotExists("f"), Eq("s", "a"), Ne("s", "zz")} {
+		f := f
+		r0, e0 := idx.NewSearch().WithFilters(f).Execute()
+		vAssert(e0 == nil, "search-ok")
+		vCheckIDs(r0, docs, func(d *vDoc) bool { x, _ := vEval(d, f); return x }, "before-history")
+	}
 	nops := vChoose("nops", 3)
 	for o := 0; o < nops; o++ {
 		t := vChoose(vName("target", o), 4)
@@ -386,7 +393,11 @@ func H_C04_history() {
 	}
 	c := vI64("c")
 	var fs []Filter
-	switch vChoose("filter", 6) {
+	switch vChoose("filter", 8) {
+	case 6:
+		fs = []Filter{Exists("b")}
+	case 7:
+		fs = []Filter{Exists("i"), Exists("s")}
 	case 1:
 		fs = []Filter{Eq("s", "a")}
 	case 2:
